@@ -472,6 +472,12 @@ def refStep (width : Nat → Int) (bs : List Nat) : RefStep :=
       | _ => .err "truncated sequence"
     else .err "invalid lead byte (>= 0xf8)"
 
+/-- `bs` is the part of the input a call at offset `str` with `len` left may look at: the bytes up to
+    (excluding) the first NUL, or up to the length, whichever comes first. -/
+def Effective (mem : Mem) (str : Nat) (len : Option Nat) (bs : List Nat) : Prop :=
+  (∀ i, i < bs.length → bs.getD i 0 = (mem (str + i)).toNat ∧ (mem (str + i)).toNat ≠ 0) ∧
+  (len = some bs.length ∨ ((mem (str + bs.length)).toNat = 0 ∧ ∀ l, len = some l → bs.length < l))
+
 /-- Decode the whole effective input. -/
 def refScan (width : Nat → Int) : Nat → List Nat → List Ch × Tail × String
   | 0, _ => ([], .err, "fuel")
